@@ -96,15 +96,18 @@ pub fn verify_accepts_spec(M: usize, F: usize, A: usize, twin: bool) {
     // the verifier's key arrives as the 49 specified bytes (k3.public), through the stable decoder
     let pkb = vspec::v3::p384_pk(&d);
     let _honest = sk_of(&d); // the key pair was honestly generated: its point is on the curve (model assumption made at derivation)
-    aws_lc_sys::model::promise_points_valid(true); // ... so the decoder's accept/reject branch is decided (README rule 3)
-    let pk = match <V3 as HasKey<Public>>::decode(&pkb) {
-        Ok(k) => k,
-        Err(e) => { core::mem::forget(e); vassert!(false, "[C08] the compressed public key of a valid scalar is accepted"); return; }
-    };
+    // The verifier's key is the one derived from the secret key; that it IS the 49 specified bytes is an obligation below, and
+    // that those bytes decode to it is public_key_roundtrip_h. (Not through HasKey<Public>::decode here: since the D3 repair the
+    // decoder returns early on the tag byte before the model's point-validity call, so the two paths of `decode` carry a
+    // different number of memo entries and merge at its end — the memo-table size would be symbolic for the hash that follows;
+    // README rule 3b. Measured: no verdict in 30 min.)
+    let pk = <V3 as SealingVersion<Public>>::unsealing_key(&_honest);
+    let pk_is_spec = pk_bytes(&pk) == pkb;
     let r = <V3 as UnsealingVersion<Public>>::unseal(&pk, "", tok, f, a);
     let ok = r.is_ok();
     let same = match r { Ok(m) => m == msg, Err(e) => { core::mem::forget(e); false } };
     vcheck_all!(
+        (pk_is_spec, "[C08] the public key derived from a secret key is the compressed P-384 point of its scalar"),
         (ok, "[C03] every specification-conforming v3.public token is accepted under the signer's public key, whichever of the two forms (r, s) / (r, n - s) its signer emitted (the specification has no low-S rule)"),
         (!ok || same, "[C01] verify returns exactly the signed message"),
     );
@@ -147,7 +150,7 @@ pub fn roundtrip_own_nonce(M: usize, F: usize, A: usize) {
 /// single-bit neighbour of (r, s0): n is odd, so s0 and n - s0 differ in bit 0, and they differ in nothing else only for
 /// {s0, n - s0} = {(n-1)/2, (n+1)/2} = {..b9, ..ba}, which differ in two bits. The arithmetic is exact in the models, so the
 /// solver decides this itself — no assumption is made here. (The twin as a whole is accepted: verify_accepts_spec_twin_*.)
-pub fn verify_rejects_tamper(M: usize, F: usize, A: usize) {
+pub fn verify_rejects_tamper(M: usize, F: usize, A: usize, OTHERKEY: bool) {
     let T = M + SIG;
     let d = any_scalar();
     let msgb: [u8; MX] = kani::any();
@@ -167,13 +170,20 @@ pub fn verify_rejects_tamper(M: usize, F: usize, A: usize) {
     let idx: usize = kani::any();
     let bit: u8 = kani::any();
     kani::assume(bit < 8);
-    match which {
-        0 => { kani::assume(idx < T); tok[idx] ^= 1 << bit; }
-        1 => { kani::assume(idx < 49); pkb[idx] ^= 1 << bit; }
-        2 => { kani::assume(idx < F); f2b[idx] ^= 1 << bit; }
-        _ => { kani::assume(idx < A); a2b[idx] ^= 1 << bit; }
-    }
-    let pk = match <V3 as HasKey<Public>>::decode(&pkb) { Ok(k) => k, Err(e) => { core::mem::forget(e); return } };
+    // "another key" is a separate harness instance (OTHERKEY, concrete): only there the key goes through the decoder, whose two
+    // paths (tag byte rejected early / point-validity call made) merge with a different number of memo entries (README rule 3b)
+    let pk = if OTHERKEY {
+        kani::assume(idx < 49);
+        pkb[idx] ^= 1 << bit;
+        match <V3 as HasKey<Public>>::decode(&pkb) { Ok(k) => k, Err(e) => { core::mem::forget(e); return } }
+    } else {
+        match which {
+            0 => { kani::assume(idx < T); tok[idx] ^= 1 << bit; }
+            2 => { kani::assume(idx < F); f2b[idx] ^= 1 << bit; }
+            _ => { kani::assume(which == 3 && idx < A); a2b[idx] ^= 1 << bit; }
+        }
+        <V3 as SealingVersion<Public>>::unsealing_key(&_honest)
+    };
     let mut beforeb = [0u8; TX];
     beforeb[..T].copy_from_slice(tok);
     let r = <V3 as UnsealingVersion<Public>>::unseal(&pk, "", tok, &f2b[..F], &a2b[..A]);
@@ -186,8 +196,8 @@ pub fn verify_rejects_tamper(M: usize, F: usize, A: usize) {
         (!rejected || kind_ok, "[C12] a signature failure is CryptoError, whatever the message bytes"),
         (untouched, "[C12] verification never modifies the payload"),
     );
-    kani::cover!(which == 0, "token bit flip explored");
-    kani::cover!(which == 1, "other key explored");
+    kani::cover!(OTHERKEY || which == 0, "token bit flip explored");
+    kani::cover!(!OTHERKEY || rejected, "other key explored");
 }
 
 /// [C02] bytes moved across the footer/assertion boundary are rejected
@@ -431,8 +441,9 @@ inst! {
     verify_accepts_spec_twin_3_2_1 = verify_accepts_spec(3, 2, 1, true);
     roundtrip_own_nonce_0_0_0 = roundtrip_own_nonce(0, 0, 0);
     roundtrip_own_nonce_1_1_1 = roundtrip_own_nonce(1, 1, 1);
-    verify_rejects_tamper_0_0_0 = verify_rejects_tamper(0, 0, 0);
-    verify_rejects_tamper_1_1_1 = verify_rejects_tamper(1, 1, 1);
+    verify_rejects_tamper_0_0_0 = verify_rejects_tamper(0, 0, 0, false);
+    verify_rejects_tamper_1_1_1 = verify_rejects_tamper(1, 1, 1, false);
+    verify_rejects_other_key_0_0_0 = verify_rejects_tamper(0, 0, 0, true);
     verify_rejects_boundary_shift_1 = verify_rejects_boundary_shift(1);
     verify_rejects_message_shift_h = verify_rejects_message_shift();
     verify_short_0 = verify_short(0); verify_short_95 = verify_short(95); verify_short_96 = verify_short(96); verify_short_98 = verify_short(98);
